@@ -127,6 +127,8 @@ def write_group(fn, cases):
             # carrier field + bounds; the bounds hold the same raw values twice
             b = nc.createVariable(name + "_bnds", c["dt"], dnames + ("bnd",), **kw)
             b.set_auto_maskandscale(False)
+            for k, a in c["attrs"].items():
+                set_raw_attr(b, k, a)
             arr = np_vals(c["data"], c["dt"]).reshape(c["shape"])
             b[...] = np.stack([arr, arr], axis=-1)
             v.setncattr("bounds", name + "_bnds")
